@@ -126,10 +126,10 @@ static int genLoc()
   if (k < 7) return 1;  // Z
   if (k < 9) return 0;  // X
   if (k < 11) return 3; // F
-  if (k < 12) return 2; // V
-  if (k < 14) return SEL;
-  if (k < 15) return 8; // W
-  if (k < 16) return 9; // C
+  if (k < 12) return SEL; // proper selections come from addSelection*
+  if (k < 14) return 4;   // G
+  if (k < 15) return 8;   // W
+  if (k < 16) return 9;   // C
   return G::i(0, NLOC - 1);
 }
 static Op genOp(bool gaps, bool hazard)
@@ -383,6 +383,7 @@ struct R
   bool stop     = false; // a failure that is not a known finding: the case ends
   bool giveUp   = false; // state no longer comparable after a known finding
   bool endAfterStep = false;
+  bool seenNonBinary = false;
   std::string opn;
   int step = -1;
   std::vector<Failure> deferred;
@@ -585,7 +586,8 @@ static bool checkState(R& r)
       double x = c.v[(size_t)e];
       if (!(db.getArray(e, c.uid) == x)) return r.fail("values:cell", fmt("getArray(%d,%d)=%g, table %g", e, c.uid, db.getArray(e, c.uid), x));
       if (!(db.getValueByColIdx(e, i) == x)) return r.fail("values:cell", fmt("getValueByColIdx(%d,%d)=%g, table %g", e, i, db.getValueByColIdx(e, i), x));
-      if (!(db.getValue(c.name, e) == x)) return r.fail("values:cell", fmt("getValue('%s',%d)=%g, table %g", c.name.c_str(), e, db.getValue(c.name, e), x));
+      // by-name access compiles a regular expression per call: one rotating sample per step
+      if (e == (r.step + 1 + i) % m.nech && !(db.getValue(c.name, e) == x)) return r.fail("values:cell", fmt("getValue('%s',%d)=%g, table %g", c.name.c_str(), e, db.getValue(c.name, e), x));
     }
   }
   // --- roles
@@ -699,8 +701,11 @@ static bool checkState(R& r)
         if (r.stop) return false;
       }
     }
-    else
+    else if (!r.seenNonBinary)
+    {
+      r.seenNonBinary = true;
       r.ctx->label("sel:nonbinary");
+    }
   }
   if (m.grid && !db.isConsistent()) return r.fail("grid-consistent", "DbGrid::isConsistent() is false");
   return true;
@@ -1217,7 +1222,6 @@ void Interp::run()
       VectorDouble tb = tab(na);
       db.setColumnByUID(tb, m.cols[(size_t)ic].uid, useSel);
       writeCol(ic, tb, 0, useSel);
-      m.cols[(size_t)ic].inexact = false;
       return;
     }
     case SETCOL_COL:
